@@ -19,6 +19,8 @@ type Layout struct {
 	FrameDur       uint32 // duration of every video frame in VideoTS
 	SegFrames      []int  // video frames per segment
 	AudioSegs      []int  // audio frames (1024 @ 48 kHz) per audio segment; nil = no audio
+	VideoTrexDur   uint32 // if != 0: default sample duration in the video init segment's trex (the segments' tfhd says FrameDur, trun has no durations)
+	ExtraOwnAS     bool   // the extra video representation gets an AdaptationSet (and SegmentTimeline) of its own
 	AudioTrexDur   uint32 // if != 0: default sample duration in the audio init segment's trex (the segments' tfhd says 1024)
 	UseTime        bool   // SegmentTimeline + $Time$ templates instead of $Number$ + duration
 	StartNr        int    // startNumber of $Number$ templates
@@ -116,7 +118,7 @@ func Generate(root, src string, l Layout) error {
 		return fmt.Errorf("video source: %w", err)
 	}
 	type segT struct{ t, d uint64 }
-	var vsegs []segT
+	var vsegs, esegs []segT
 	vids := []string{vid}
 	if l.ExtraVideo != "" {
 		vids = append(vids, l.ExtraVideo)
@@ -124,6 +126,9 @@ func Generate(root, src string, l Layout) error {
 	for _, id := range vids {
 		if err := os.MkdirAll(filepath.Join(dir, id), 0o755); err != nil {
 			return err
+		}
+		if l.VideoTrexDur != 0 {
+			video.init.Moov.Mvex.Trex.DefaultSampleDuration = l.VideoTrexDur
 		}
 		if err := writeInit(filepath.Join(dir, id, "init.mp4"), video.init, l.VideoTS); err != nil {
 			return err
@@ -157,13 +162,15 @@ func Generate(root, src string, l Layout) error {
 			if l.UseTime {
 				name = fmt.Sprintf("%d.m4s", start)
 			}
-			if err := writeSeg(filepath.Join(dir, id, name), uint32(l.StartNr+si), video.trackID(), ss); err != nil {
+			if err := writeSegOpt(filepath.Join(dir, id, name), uint32(l.StartNr+si), video.trackID(), ss, l.VideoTrexDur != 0); err != nil {
 				return err
 			}
 			mySegs = append(mySegs, segT{start, t - start})
 		}
 		if id == vid {
 			vsegs = mySegs
+		} else {
+			esegs = mySegs
 		}
 	}
 	var asegs []segT
@@ -268,9 +275,16 @@ func Generate(root, src string, l Layout) error {
 `, float64(total)/float64(l.VideoTS))
 	fmt.Fprintf(&b, `  <AdaptationSet contentType="video" id="1" mimeType="video/mp4" segmentAlignment="true" startWithSAP="1">%s`, tmpl(l.VideoTS, vsegs))
 	for _, id := range vids {
+		if l.ExtraOwnAS && id == l.ExtraVideo {
+			continue
+		}
 		fmt.Fprintf(&b, `<Representation id="%s" codecs="avc1.64001e" bandwidth="300000" width="640" height="360" frameRate="30"/>`, id)
 	}
 	b.WriteString("</AdaptationSet>\n")
+	if l.ExtraOwnAS && l.ExtraVideo != "" {
+		fmt.Fprintf(&b, `  <AdaptationSet contentType="video" id="4" mimeType="video/mp4" segmentAlignment="true" startWithSAP="1">%s<Representation id="%s" codecs="avc1.64001e" bandwidth="600000" width="640" height="360" frameRate="30"/></AdaptationSet>
+`, tmpl(l.VideoTS, esegs), l.ExtraVideo)
+	}
 	if asegs != nil {
 		fmt.Fprintf(&b, `  <AdaptationSet contentType="audio" id="2" mimeType="audio/mp4" lang="en" segmentAlignment="true" startWithSAP="1">%s<Representation id="A48" codecs="mp4a.40.2" bandwidth="48000" audioSamplingRate="48000"/></AdaptationSet>
 `, tmpl(48000, asegs))
@@ -318,6 +332,16 @@ func Layouts(quick bool) []Layout {
 		)
 	}
 	return ls
+}
+
+// ExtraLayouts are used by single checks only (generated by the harness that wants them).
+func ExtraLayouts() []Layout {
+	return []Layout{
+		// the video init segment's trex default sample duration differs from the tfhd default; trun carries no durations
+		{Name: "x_video_trex_vs_tfhd", VideoTS: 90000, FrameDur: 3000, SegFrames: []int{60, 60}, AudioSegs: []int{94, 94}, VideoTrexDur: 2002},
+		// two video representations with different segment grids (4 x 2 s and 1 x 8 s), $Time$ addressed
+		{Name: "x_two_video_grids", VideoTS: 90000, FrameDur: 3000, SegFrames: []int{60, 60, 60, 60}, ExtraVideo: "V8s", ExtraSegFrames: []int{240}, ExtraOwnAS: true, UseTime: true},
+	}
 }
 
 // NegativeLayouts are assets that must be left out by the server (C15).
